@@ -34,7 +34,9 @@ TRUSTED = [
     "theorem's model is tied to the code directly; heap layer = ownership-tree layer is proved in general for copy "
     "(C09_copy_abs) and kernel-evaluated on an enumerated family for expand/shrink (C09_layers_agree_family), not proved "
     "in general",
-    "str.casefold() is modelled on ASCII only (generated definition names are ASCII)",
+    "str.casefold() is modelled by the ASCII rule plus the table coq/Gen/C09Fold.v, regenerated on every run from "
+    "CPython for every code point the generators can put into a definition name (fail closed); tags, values and "
+    "namespaces are ASCII",
 ]
 ASSUMPTIONS = [
     "full HedValidator.validate() is exercised on the implementation only (oracle); the model covers "
@@ -48,15 +50,57 @@ ASSUMPTIONS = [
     "placeholder tag present iff takes_value), which is proved to be preserved by check_for_definitions",
 ]
 
-_schema = None
+_schemas = {}
+MODES = ["std", "tl", "grp"]     # 8.3.0 / 8.3.0 loaded under the namespace tl: / group of 8.3.0 and sc:score_2.0.0
 
 
-def schema():
-    global _schema
-    if _schema is None:
+def schema(mode="std"):
+    """The schema (group) of a case: plain, loaded under a namespace, or a group with a prefixed library."""
+    if mode not in _schemas:
         from hed.schema import load_schema
-        _schema = load_schema(os.path.join(C.REPO, "hed/schema/schema_data/HED8.3.0.xml"))
-    return _schema
+        data = os.path.join(C.REPO, "hed/schema/schema_data")
+        if mode == "std":
+            _schemas[mode] = load_schema(os.path.join(data, "HED8.3.0.xml"))
+        elif mode == "tl":
+            _schemas[mode] = load_schema(os.path.join(data, "HED8.3.0.xml"), schema_namespace="tl:")
+        else:
+            from hed.schema.hed_schema_group import HedSchemaGroup
+            _schemas[mode] = HedSchemaGroup([schema("std"),
+                                             load_schema(os.path.join(data, "HED_score_2.0.0.xml"),
+                                                         schema_namespace="sc:")])
+    return _schemas[mode]
+
+
+def strip_ns(t):
+    """'sc:Def/A' -> ('sc:', 'Def/A'): a library namespace is a prefix ending in ':' before the first '/'."""
+    i = t.find(":")
+    if i != -1 and (t.find("/") == -1 or i < t.find("/")):
+        return t[:i + 1], t[i + 1:]
+    return "", t
+
+
+def make_prefixer(rng, mode):
+    """Namespace of every tag text of a case: none / always tl: / per tag text sc: or none (kept per text, so equal
+    tags stay equal)."""
+    memo = {}
+
+    def pf(t):
+        ns, bare = strip_ns(t)
+        if ns or mode == "std":
+            return t
+        if mode == "tl":
+            return "tl:" + bare
+        key = bare.split("/")[0]          # Label/# and Label/3 must agree
+        if key not in memo:
+            memo[key] = rng.choice(["sc:", ""])
+        return memo[key] + bare
+    return pf
+
+
+def map_tags(n, pf):
+    if isinstance(n, str):
+        return pf(n)
+    return [map_tags(c, pf) for c in n]
 
 
 def translate():
@@ -68,6 +112,20 @@ def translate():
         raise RuntimeError("current_fx/current_fs not found in Model/DefStore.v")
     if (m1.group(1) == "true") != FIXED or (m2.group(1) == "true") != FIXED_F2:
         raise RuntimeError("FIXED/FIXED_F2 in harness/c09.py differ from current_fx/current_fs in Model/DefStore.v")
+    # str.casefold() of every code point the generators can put into a definition name, from CPython
+    entries = []
+    for ch in fold_alphabet():
+        c, cf = ord(ch), ch.casefold()
+        if c < 128:
+            want = chr(c + 32) if 65 <= c <= 90 else ch
+            if cf != want:
+                raise RuntimeError(f"casefold of ASCII {c} is not the ASCII rule of Model/Defs.v")
+        elif cf != ch:
+            entries.append(f"({c}, [{'; '.join(str(ord(x)) for x in cf)}])")
+    text = ("(* GENERATED by harness/c09.py translate() from CPython's str.casefold(); do not edit. *)\n"
+            "From Coq Require Import List NArith.\nImport ListNotations.\n"
+            "Definition c09_fold_table : list (N * list N) := [" + "; ".join(entries) + "]%N.\n")
+    C.write_if_changed(os.path.join(C.COQ, "Gen/C09Fold.v"), text)
 
 
 # ---------------------------------------------------------------- structures (harness side, independent of hed)
@@ -114,7 +172,7 @@ def fcanon_ordered(f):
     for n in f:
         if isinstance(n, str):
             out.append(n)
-        elif any(isinstance(c, str) and c.startswith("Def-expand/") for c in n):
+        elif any(isinstance(c, str) and strip_ns(c)[1].startswith("Def-expand/") for c in n):
             out.append(canon(n))
         else:
             out.append(("g",) + tuple(fcanon_ordered(n)))
@@ -143,6 +201,7 @@ def subst(n, v):
 
 def split_def(tagtext):
     """'Def/Name/val' -> (name, val)"""
+    tagtext = strip_ns(tagtext)[1]
     rest = tagtext.split("/", 1)[1] if "/" in tagtext else ""
     name, _, val = rest.partition("/")
     return name, val
@@ -151,10 +210,11 @@ def split_def(tagtext):
 def expansion_of(good, tagtext):
     """Statement: (Def-expand/Name[/v], content with '#' replaced by v) or None when not expandable."""
     name, val = split_def(tagtext)
-    d = good.get(name.lower())
+    d = good.get(name.casefold())
     if d is None or d["takes"] != bool(val):
         return None
-    out = ["Def-expand/" + tagtext.split("/", 1)[1]]
+    ns, bare = strip_ns(tagtext)
+    out = [ns + "Def-expand/" + bare.split("/", 1)[1]]        # the namespace stays
     if d["content"]:
         out.append(subst(d["content"], val) if val else d["content"])
     return out
@@ -164,7 +224,7 @@ def py_expand(good, f, top=True):
     out = []
     for n in f:
         if isinstance(n, str):
-            e = expansion_of(good, n) if n.startswith("Def/") else None
+            e = expansion_of(good, n) if strip_ns(n)[1].startswith("Def/") else None
             out.append(e if e is not None else n)
         else:
             out.append(py_expand(good, n, False))
@@ -173,14 +233,15 @@ def py_expand(good, f, top=True):
 
 def multi_de(f, top=True):
     """Some non-root group holds two direct Def-expand tags (shrink_defs raises KeyError; statement silent)."""
-    n = sum(1 for c in f if isinstance(c, str) and (c == "Def-expand" or c.startswith("Def-expand/")))
+    n = sum(1 for c in f if isinstance(c, str) and (strip_ns(c)[1] == "Def-expand"
+                                                    or strip_ns(c)[1].startswith("Def-expand/")))
     if n >= 2 and not top:
         return True
     return any(multi_de(c, False) for c in f if not isinstance(c, str))
 
 
 def has_defexpand(f):
-    return any(t.startswith("Def-expand") for n in f for t in all_tags(n))
+    return any(strip_ns(t)[1].startswith("Def-expand") for n in f for t in all_tags(n))
 
 
 # ---------------------------------------------------------------- implementation side
@@ -201,7 +262,7 @@ def node_sx(ch):
             else:
                 bs = ["O", C.cps(b), c.is_takes_value_tag(),
                       bool(c.has_attribute("unique") or c.has_attribute("required"))]
-            out.append(["T", bs, C.cps(c.extension), C.cps(c.org_tag)])
+            out.append(["T", bs, C.cps(c.extension), C.cps(c.org_tag), C.cps(c.schema_namespace)])
         else:
             out.append(["G"] + node_sx(c.children))
     return out
@@ -250,7 +311,7 @@ def _alarm(signum, frame):
 def impl_one(case):
     """impl_one_inner under an alarm: a hang is reported, not waited for."""
     import signal
-    schema()                                   # imports and schema load happen outside the alarm
+    schema(case.get("mode", "std"))            # imports and schema load happen outside the alarm
     from hed.validator.def_validator import DefValidator  # noqa
     signal.signal(signal.SIGALRM, _alarm)
     signal.alarm(CASE_TIMEOUT)
@@ -267,7 +328,7 @@ def impl_one_inner(case):
     from hed.models.hed_string import HedString
     from hed.models.definition_dict import DefinitionDict
     from hed.validator.def_validator import DefValidator
-    S = schema()
+    S = schema(case.get("mode", "std"))
     r = {"defs": [], "steps": [], "def_forests": []}
     try:
         dd = DefinitionDict()
@@ -348,7 +409,7 @@ def impl_column(case):
     import pandas as pd
     from hed.models import df_util
     from hed.models.definition_dict import DefinitionDict
-    S = schema()
+    S = schema(case.get("mode", "std"))
     dd = DefinitionDict()
     from hed.models.hed_string import HedString
     for d in case["defs"]:
@@ -377,7 +438,18 @@ def impl_column(case):
 PLAIN = ["Red", "Blue", "Green", "Square", "Circle", "Triangle", "Item", "Sensory-event", "Agent-action"]
 VALUED = ["Label/x1", "Label/abc", "Item-count/3", "Distance/3 m", "Frequency/5 Hz", "Weight/2 kg", "Age/3"]
 PHS = ["Label/#", "Item-count/#", "Distance/# m", "Frequency/# Hz", "Weight/# kg", "Age/#"]
-NAMES = ["MyDef", "A1", "Pq", "Cross-fix", "zz", "Long-definition-name", "B"]
+NAMES = ["MyDef", "A1", "Pq", "Cross-fix", "zz", "Long-definition-name", "B",
+         # names whose lower() differs from their casefold(): sharp s, final sigma, ligature; plus a simple accent
+         "Stra\u00dfe", "Ma\u00df", "\u039b\u03cc\u03b3\u03bf\u03c2", "\ufb01x", "\u00c9a"]
+
+
+def fold_alphabet():
+    """Every code point the generators can put into a definition name (names and their case variants)."""
+    chars = set()
+    for n in NAMES:
+        for v in (n, n.upper(), n.lower(), n.casefold(), n.title(), n.swapcase()):
+            chars |= set(v)
+    return sorted(chars)
 VALUES = ["3", "x1", "45", "7"]
 
 
@@ -499,6 +571,7 @@ def gen_def(rng, name, kind="valid"):
     # other top-level material in the same string is ignored by the gatherer
     if rng.random() < 0.15:
         top = top + [rng.choice(PLAIN)]
+    d["top"] = top
     d["text"] = ftxt(top)
     return d
 
@@ -523,12 +596,13 @@ def gen_defs(rng, malformed):
     # duplicates (same name up to case) are reported and ignored
     if rng.random() < (0.5 if malformed else 0.12):
         src = rng.choice(defs)
-        dup = gen_def(rng, rng.choice([src["name"], src["name"].upper(), src["name"].lower()]), "valid")
+        dup = gen_def(rng, rng.choice([src["name"], src["name"].upper(), src["name"].lower(),
+                                       src["name"].casefold(), src["name"].swapcase()]), "valid")
         dup["dup_candidate"] = True
         defs.insert(rng.randint(1, len(defs)), dup)
     good = {}
     for d in defs:
-        key = d["name"].lower()
+        key = d["name"].casefold()
         if d["valid"] and key in good:
             d["valid"], d["need_issue"], d["kind"] = False, True, "duplicate"
         elif d["valid"]:
@@ -565,7 +639,7 @@ def def_ref(rng, good, wrong=0.12):
     d = rng.choice(list(good.values()))
     nm = d["name"]
     if rng.random() < 0.1:
-        nm = rng.choice([nm.lower(), nm.upper()])
+        nm = rng.choice([nm.lower(), nm.upper(), nm.casefold()])
     takes = d["takes"]
     if rng.random() < wrong:
         takes = not takes
@@ -673,14 +747,47 @@ def gen_ops(rng, maxlen=6):
     return "".join(rng.choices("ESCVO", weights=[38, 28, 14, 10, 10], k=n))
 
 
+def apply_mode(case, mode, rng):
+    """Put the case under a schema configuration: every tag text gets its namespace (definitions, declared contents,
+    annotation, column rows); what the statement says about the case does not change."""
+    case["mode"] = mode
+    if mode == "std":
+        return case
+    pf = make_prefixer(rng, mode)
+    for d in case["meta"]:
+        if "top" in d:
+            d["top"] = map_tags(d["top"], pf)
+            d["text"] = ftxt(d["top"])
+        else:
+            d["text"] = ftxt(map_tags(parse_struct(d["text"]), pf))
+        if d.get("content") is not None:
+            d["content"] = map_tags(d["content"], pf)
+    texts, pos = [], 0
+    for k in case.get("pack") or [1] * len(case["meta"]):
+        texts.append(",".join(d["text"] for d in case["meta"][pos:pos + k]))
+        pos += k
+    case["defs"] = texts
+    if "ann_struct" in case:
+        case["ann_struct"] = map_tags(case["ann_struct"], pf)
+        case["ann"] = ftxt(case["ann_struct"]).replace(",", case.get("sep", ","))
+    if "rows" in case:
+        case["rows"] = [ftxt(map_tags(parse_struct(r), pf)) for r in case["rows"]]
+    return case
+
+
+def pick_mode(rng):
+    return rng.choices(MODES, weights=[60, 20, 20])[0]
+
+
 def gen_case(rng, malformed=False):
     defs, good = gen_defs(rng, malformed)
     with_de = rng.random() < 0.3
     ann, info = gen_ann(rng, good, depth=rng.randint(0, 3), with_de=with_de, malformed=malformed)
     sp = rng.choice([",", ",", ", ", " , "])
     texts, sizes = pack_defs(rng, defs)
-    return {"defs": texts, "pack": sizes, "meta": defs, "good": good, "ann": ftxt(ann).replace(",", sp),
+    case = {"defs": texts, "pack": sizes, "meta": defs, "good": good, "ann": ftxt(ann).replace(",", sp), "sep": sp,
             "ann_struct": ann, "de_info": info, "ops": gen_ops(rng), "kind": "malformed" if malformed else "valid"}
+    return apply_mode(case, pick_mode(rng), rng)
 
 
 def de_case(rng, variant):
@@ -691,8 +798,10 @@ def de_case(rng, variant):
             break
     g, info = written_defexpand(rng, good, variant)
     texts, sizes = pack_defs(rng, defs)
-    return {"defs": texts, "pack": sizes, "meta": defs, "good": good, "ann": txt(g), "ann_struct": [g],
-            "de_info": [info], "ops": rng.choice(["V", "", "VS", "S", "ES", "SE", "EV", "E", "VEV", "ECV", "EVCOV"]), "kind": "defexpand", "single_de": info}
+    case = {"defs": texts, "pack": sizes, "meta": defs, "good": good, "ann": txt(g), "ann_struct": [g],
+            "de_info": [info], "ops": rng.choice(["V", "", "VS", "S", "ES", "SE", "EV", "E", "VEV", "ECV", "EVCOV"]),
+            "kind": "defexpand", "single_de": info}
+    return apply_mode(case, pick_mode(rng), rng)
 
 
 def fixed_case(defs, ann, ops, kind="corpus"):
@@ -709,10 +818,10 @@ def fixed_case(defs, ann, ops, kind="corpus"):
             name = dtag.split("/")[1]
             m = {"name": name, "takes": dtag.endswith("/#"), "content": content, "valid": True, "need_issue": False,
                  "kind": "valid", "text": txt(grp)}
-            if name.lower() in good:
+            if name.casefold() in good:
                 m["valid"], m["need_issue"], m["kind"] = False, True, "duplicate"
             else:
-                good[name.lower()] = m
+                good[name.casefold()] = m
             meta.append(m)
     return {"defs": defs, "pack": sizes, "meta": meta, "good": good, "ann": ann, "ann_struct": parse_struct(ann),
             "de_info": [], "ops": ops, "kind": kind}
@@ -734,6 +843,15 @@ def corpus():
         fixed_case(["(Definition/B),(Definition/Pq/#,(Label/#)),(Definition/MyDef,(Red,Blue)),(Definition/pq,(Red))"],
                    "Def/MyDef,(Def/Pq/3,Green),Def/B", "E", "several-definitions-in-one-string"),
         fixed_case(d2, "Def/MyDef,(Def/Pq/3,Green)", "ESCE", "copy-interleaving"),
+        apply_mode(fixed_case(d2, "Def/MyDef,(Def/Pq/3,Green),(Def-expand/B)", "ESEV", "namespace"), "tl",
+                   random.Random(1)),
+        apply_mode(fixed_case(d2, "Def/MyDef,(Def/Pq/3,Green),(Def-expand/B)", "ESCEOS", "namespace"), "grp",
+                   random.Random(2)),
+        apply_mode(fixed_case(d2, "Def/MyDef,(Def/Pq/3,Green),(Def-expand/MyDef,(Blue,Red))", "SEV", "namespace"), "grp",
+                   random.Random(5)),
+        fixed_case(["(Definition/Stra\u00dfe,(Red,Blue))", "(Definition/STRASSE,(Green))",
+                    "(Definition/\u039b\u03cc\u03b3\u03bf\u03c2/#,(Label/#)),(Definition/\u039b\u038c\u0393\u039f\u03a3,(Red))"],
+                   "Def/strasse,Def/Stra\u00dfe,(Def/\u039b\u038c\u0393\u039f\u03a3/3,Green)", "ES", "casefold-names"),
         fixed_case(d2, "Def/MyDef,(Def/Pq/3,Green)", "ECSEOS", "copy-interleaving"),
         fixed_case(d2, "Def/MyDef,(Def/Pq/3,Green)", "ECSEOSEV", "copy-interleaving"),
         fixed_case(d2, "(Def-expand/MyDef,(Red,Green)),Def/MyDef", "EV", "mismatch-then-expand"),
@@ -756,12 +874,12 @@ def corpus():
 
 def strip_case(case):
     """JSON-able payload with everything the oracle needs (replayable)."""
-    return {k: case[k] for k in ("defs", "pack", "ann", "ops", "kind", "meta", "good", "de_info", "single_de", "ann_struct")
+    return {k: case[k] for k in ("defs", "pack", "mode", "ann", "ops", "kind", "meta", "good", "de_info", "single_de", "ann_struct")
             if k in case}
 
 
 def slim_case(case):
-    return {"defs": case["defs"], "ann": case["ann"], "ops": case["ops"]}
+    return {"defs": case["defs"], "ann": case["ann"], "ops": case["ops"], "mode": case.get("mode", "std")}
 
 
 def oracle(case, r, res):
@@ -779,15 +897,15 @@ def oracle(case, r, res):
         if not o.get("prefix_kept", True):
             res.report("definition-not-stored", cc, f"{text!r} changed entries stored earlier")
         for m in ms:
-            key = m["name"].lower()
+            key = m["name"].casefold()
             if m["valid"] is True and key not in o["added"]:
                 res.report("definition-accepted", cc, f"valid definition {m['text']!r} not stored by {text!r} "
                                                       f"(issues={o['n']} {o['codes']})")
             if m["valid"] is False and m["kind"] != "duplicate" and key in o["added"] \
-                    and not any(x is not m and x["valid"] and x["name"].lower() == key for x in ms):
+                    and not any(x is not m and x["valid"] and x["name"].casefold() == key for x in ms):
                 res.report("definition-not-stored", cc, f"{m['kind']}: {m['text']!r} in {text!r} was stored")
         if all(m["valid"] is not None for m in ms):
-            want_added = [m["name"].lower() for m in ms if m["valid"]]
+            want_added = [m["name"].casefold() for m in ms if m["valid"]]
             if o["added"] != want_added:
                 res.report("definition-not-stored" if len(o["added"]) > len(want_added) else "definition-accepted",
                            cc, f"{text!r} stored {o['added']}, expected {want_added}")
@@ -920,7 +1038,7 @@ def oracle(case, r, res):
 
 
 def oracle_column(case, out, res):
-    cc = {"defs": case["defs"], "rows": case["rows"], "kind": "column"}
+    cc = {"defs": case["defs"], "rows": case["rows"], "kind": "column", "mode": case.get("mode", "std")}
     if "exn" in out:
         res.report("column-never-raises", cc, out["exn"])
         return
@@ -1012,7 +1130,9 @@ def column_cases(rng, n):
             ann, _ = gen_ann(rng, good, depth=rng.randint(0, 2), with_de=False)
             rows.append(ftxt(ann) if rng.random() < 0.8 else ftxt([t for t in ann if isinstance(t, str)
                                                                      and not t.startswith("Def")] or ["Red"]))
-        out.append({"defs": pack_defs(rng, defs)[0], "good": good, "rows": rows})
+        texts, sizes = pack_defs(rng, defs)
+        out.append(apply_mode({"defs": texts, "pack": sizes, "meta": defs, "good": good, "rows": rows},
+                              pick_mode(rng), rng))
     return out
 
 
@@ -1032,7 +1152,8 @@ def run(tier, seed, res, model_ok=True, proof_ok=True):
     slim = [slim_case(c) for c in cases]
     with Pool(int(C.JOBS)) as pool:
         impl = pool.map(impl_one, slim, chunksize=50)
-        colout = pool.map(impl_column, [{"defs": c["defs"], "rows": c["rows"]} for c in cols], chunksize=10)
+        colout = pool.map(impl_column, [{"defs": c["defs"], "rows": c["rows"], "mode": c["mode"]} for c in cols],
+                          chunksize=10)
 
     for c, r in zip(cases, impl):
         oracle(c, r, res)
@@ -1080,11 +1201,16 @@ def run(tier, seed, res, model_ok=True, proof_ok=True):
     def nontrivial(c):
         return ("Def" in c["ann"]) and len(c["ops"]) >= 1
     distinct = len({(tuple(c["defs"]), c["ann"], c["ops"]) for c in cases if nontrivial(c)})
-    hist = {"kind": {}, "ops_len": {}, "def_kinds": {}, "de_variants": {}}
+    hist = {"kind": {}, "ops_len": {}, "def_kinds": {}, "de_variants": {}, "schema_mode": {}, "strings_with_k_defs": {},
+            "non_ascii_names": 0}
     for c in cases:
         hist["kind"][c["kind"]] = hist["kind"].get(c["kind"], 0) + 1
         hist["ops_len"][len(c["ops"])] = hist["ops_len"].get(len(c["ops"]), 0) + 1
+        hist["schema_mode"][c.get("mode", "std")] = hist["schema_mode"].get(c.get("mode", "std"), 0) + 1
+        for k in c.get("pack") or []:
+            hist["strings_with_k_defs"][k] = hist["strings_with_k_defs"].get(k, 0) + 1
         for m in c["meta"]:
+            hist["non_ascii_names"] += 0 if m["name"].isascii() else 1
             hist["def_kinds"][m["kind"]] = hist["def_kinds"].get(m["kind"], 0) + 1
         for i in c["de_info"]:
             hist["de_variants"][i["variant"]] = hist["de_variants"].get(i["variant"], 0) + 1
